@@ -30,6 +30,7 @@ type Unit struct {
 	Expect    []string                    `json:"expect"` // vReach markers that must be hit by a feasible path
 	MustFail  bool                        `json:"must_fail"`
 	MustTags  []string                    `json:"must_tags"` // for must_fail units: tags one of which has to be violated
+	OnlyTags  []string                    `json:"only_tags"` // assertions of this unit that belong to this property (prefixes); others are another check's business
 	Replay    string                      `json:"replay"`    // native | symbolic
 	Tiers     []string                    `json:"tiers"`
 	Edits     []Edit                      `json:"edits"`
